@@ -24,6 +24,12 @@ mod verif_kani_resp_parser {
     fn fmt_write_stub(_out: &mut dyn core::fmt::Write, _args: core::fmt::Arguments<'_>) -> core::fmt::Result { Ok(()) }
     fn fmt_pad_stub<'a>(_f: &mut core::fmt::Formatter<'a>, _s: &str) -> core::fmt::Result where 'a: 'a { Ok(()) }
 
+    // The alphabet is ASCII: String::from_utf8_lossy returns exactly Cow::Borrowed(the same bytes as str)
+    // for valid UTF-8 (std docs); skip its chunk-iteration loops.
+    fn lossy_ascii_stub(v: &[u8]) -> Cow<'_, str> {
+        Cow::Borrowed(unsafe { core::str::from_utf8_unchecked(v) })
+    }
+
     // the dispatcher of RespParser::parse restricted to the four non-recursive frame types
     fn parse_scalar(input: &[u8]) -> Option<Result<(RespValue, usize), String>> {
         match input[0] {
@@ -35,19 +41,60 @@ mod verif_kani_resp_parser {
         }
     }
 
-    // @harness: h_parser_probe
+    // For every k in 1..=N: decode the first k bytes (no panic is Kani's default check), no over-read,
+    // and prefix-stability against the decoding of all N bytes:
+    //   full = Ok((v, n))  ==>  every strict prefix of s[..n] is an error ("need more"), and every
+    //   s[..k] with k >= n (i.e. s[..n] ++ t) decodes to the same value and the same n.
+    fn check_scalars<const N: usize>() {
+        let buf = any_input::<N>();
+        let full = parse_scalar(&buf[..]);
+        if let Some(Ok((_, n))) = &full {
+            assert!(0 < *n && *n <= N);
+        }
+        let mut k = 1;
+        while k < N {
+            let part = parse_scalar(&buf[..k]);
+            if let Some(Ok((_, m))) = &part {
+                assert!(0 < *m && *m <= k);
+            }
+            if let Some(Ok((v, n))) = &full {
+                if k < *n {
+                    assert!(matches!(&part, Some(Err(_))));
+                } else {
+                    match &part {
+                        Some(Ok((pv, pn))) => assert!(*pn == *n && scalar_eq(pv, v)),
+                        _ => assert!(false),
+                    }
+                }
+            }
+            core::mem::forget(part); // RespValue is a recursive type: its drop glue would be unwound to the full bound
+            k += 1;
+        }
+        core::mem::forget(full);
+    }
+    // equality of two non-array values (the derived PartialEq recurses through Array)
+    fn scalar_eq(a: &RespValue, b: &RespValue) -> bool {
+        match (a, b) {
+            (RespValue::SimpleString(x), RespValue::SimpleString(y)) => x.as_bytes() == y.as_bytes(),
+            (RespValue::Error(x), RespValue::Error(y)) => x.as_bytes() == y.as_bytes(),
+            (RespValue::Integer(x), RespValue::Integer(y)) => x == y,
+            (RespValue::BulkString(None), RespValue::BulkString(None)) => true,
+            (RespValue::BulkString(Some(x)), RespValue::BulkString(Some(y))) => x == y,
+            _ => false,
+        }
+    }
+
+    // @harness: h_parser_scalars_n6
     // @bound: probe
     // @tier: quick
     // @complete: false
     #[kani::proof]
     #[kani::unwind(8)]
+    #[kani::stub(alloc::string::String::from_utf8_lossy, lossy_ascii_stub)]
     #[kani::stub(alloc::fmt::format, fmt_format_stub)]
     #[kani::stub(core::fmt::write, fmt_write_stub)]
     #[kani::stub(core::fmt::Formatter::pad, fmt_pad_stub)]
-    fn h_parser_probe() {
-        let buf = any_input::<6>();
-        if let Some(Ok((_, n))) = parse_scalar(&buf[..]) {
-            assert!(0 < n && n <= 6);
-        }
+    fn h_parser_scalars_n6() {
+        check_scalars::<6>();
     }
 }
